@@ -374,6 +374,14 @@ func (mc *modelCheck) run(c *vk.Ctx) {
 		if mc.Config != nil {
 			mc.Config(r, a, &cfg)
 		}
+		if !cfg.First && a.Funcs["_first"] == nil && c.RNG(key+"/first").Chance(1, 6) {
+			// a side-effect free pre-VM function (Engine.WithFirst) must be invisible to the session
+			a.Funcs["_first"] = &app.FuncSpec{Sym: "_first", Kind: "idlang"}
+			cfg.First = true
+		}
+		if cfg.First {
+			c.Count("histories_with_pre_vm_function", 1)
+		}
 		var hist []string
 		if mc.Hist != nil {
 			hist = mc.Hist(r, a)
